@@ -18,10 +18,10 @@ pub fn prop() -> Prop {
             "sizes <= 40 (images <= 17), stroke widths <= 40",
         ],
         subs: vec![
-            Sub::tape("primitives", 40, 240_000, 12_000_000, |d, cx| run(d, cx, 0)).with_fp(),
-            Sub::tape("primitives_large", 40, 3_000, 150_000, |d, cx| run(d, cx, 4)),
-            Sub::tape("polylines", 40, 40_000, 2_000_000, |d, cx| run(d, cx, 1)),
-            Sub::tape("images", 120, 50_000, 2_500_000, |d, cx| run(d, cx, 2)),
+            Sub::tape("primitives", 64, 240_000, 12_000_000, |d, cx| run(d, cx, 0)).with_fp(),
+            Sub::tape("primitives_large", 64, 3_000, 150_000, |d, cx| run(d, cx, 4)),
+            Sub::tape("polylines", 72, 40_000, 2_000_000, |d, cx| run(d, cx, 1)),
+            Sub::tape("images", 400, 50_000, 2_500_000, |d, cx| run(d, cx, 2)),
             Sub::tape("text", 300, 40_000, 2_000_000, |d, cx| run(d, cx, 3)),
         ],
     }
